@@ -280,6 +280,10 @@ def _out_of_flow_layout(context, box, index, child, new_children,
             resume_at = {index: None}
             out_of_flow_resume_at = None
             stop = True
+            # The float is laid out again on the next page: forget the
+            # placeholders and broken floats of this discarded layout.
+            remove_placeholders(
+                context, [new_child], absolute_boxes, fixed_boxes)
             if new_children and avoid_page_break(page_break, context):
                 # Can’t break inside float, find an earlier page break.
                 result = find_earlier_page_break(
